@@ -65,6 +65,17 @@ Theorem waits_for_relay :
 Proof. exact Proofs.C43.waits_for_relay. Qed.
 Print Assumptions waits_for_relay.
 
+(* "once all of them are mined": having read height h, epoch e and proof length L, proveNextEpoch
+   returns "not proven" (goes idle) exactly when the last required header is not mined yet;
+   otherwise it goes on to fetch and submit *)
+Theorem idle_only_when_headers_missing :
+  forall (EL : Z) (dp : bool), 0 < EL ->
+  forall h e L w,
+    w_plen w = Some L -> in_domain EL e L = true ->
+    (snd (step EL dp (SPLen h e) w) = Some (RNext NIdle) <-> h < last_req EL e L).
+Proof. exact Proofs.C43.idle_only_when_headers_missing. Qed.
+Print Assumptions idle_only_when_headers_missing.
+
 (* A failed call (or a submission) ends the round: the next submission rests on a height, an
    epoch and a proof length that were all asked for again afterwards. *)
 Theorem model_failed_call_ends_round :
